@@ -84,7 +84,9 @@ where StandardNormal: Distribution<F>, Exp1: Distribution<F>, Open01: Distributi
                 let Some(d1) = build::<F>(fam, sh, loc, scale) else { continue };
                 let _ = &mut rng0;
                 // R1 / R2: exact homogeneity under 2^k (not for LogNormal: affine only in log space)
-                let k: i32 = [-8, -3, -1, 1, 2, 5, 8][si % 7];
+                // k spans the scale range S of envelope E (1e-12..1e12 for f64, 1e-6..1e6 for f32; InverseGaussian: 1e-3..1e3)
+                let big: [i32; 4] = if F::NAME == "f32" { [-16, -9, 9, 16] } else { [-36, -18, 18, 36] };
+                let k: i32 = if *fam != "InverseGaussian" && si % 3 == 1 && scale.abs() <= F::of(12.0) && scale.abs() >= F::of(0.001) { big[(si / 3) % 4] } else { [-8, -3, -1, 1, 2, 5, 8][si % 7] };
                 let two_k = F::of(2f64.powi(k));
                 if *fam != "LogNormal" {
                     if let Some(d2) = build::<F>(fam, sh, loc * two_k, scale * two_k) {
@@ -281,6 +283,20 @@ where StandardNormal: Distribution<F>, Exp1: Distribution<F>, Open01: Distributi
             let range = mx - mn;
             let refv = guarded(|| { let bb: F = Beta::new(F::one() + sh * (md - mn) / range, F::one() + sh * (mx - md) / range).unwrap().sample(&mut rb); mn + range * bb });
             push("Pert", vec![mn, mx, md, sh], got, ra.words(), refv, rb.words(), &tag, out);
+        }
+        // Pert::with_mean(mean) is the Pert whose mode satisfies mean = (min + shape * mode + max) / (shape + 2)
+        // (dyadic points where the relation is exact: the reference is the documented Beta image for that mode)
+        for (mn, mx, md, sh) in [(f(0.0), f(8.0), f(2.0), f(2.0)), (f(-4.0), f(4.0), f(1.0), f(6.0)), (f(0.0), f(1.0), f(0.5), f(4.0)), (f(2.0), f(10.0), f(10.0), f(2.0)), (f(0.0), f(16.0), f(4.0), f(6.0)), (f(0.0), f(6.0), f(0.0), f(1.0))] {
+            let mean = (mn + sh * md + mx) / (sh + f(2.0));
+            let Ok(d) = Pert::new(mn, mx).with_shape(sh).with_mean(mean) else {
+                out.push(json!({"op": "wire", "fam": "Pert(with_mean)", "ft": F::NAME, "res": "Panic: constructor rejects the mean of a valid mode", "wa": 0, "wb": 0, "finite": false, "same_class": false,
+                    "got": [0, 0, 0], "ref": [0, 0, 0], "params": [format!("{:e}", mn), format!("{:e}", mx), format!("{:e}", mean), format!("{:e}", sh)], "stream": tag}).to_string());
+                continue };
+            let (mut ra, mut rb) = (rng0.clone(), rng0.clone());
+            let got = guarded(|| d.sample(&mut ra));
+            let range = mx - mn;
+            let refv = guarded(|| { let bb: F = Beta::new(F::one() + sh * (md - mn) / range, F::one() + sh * (mx - md) / range).unwrap().sample(&mut rb); mn + range * bb });
+            push("Pert(with_mean)", vec![mn, mx, mean, sh], got, ra.words(), refv, rb.words(), &tag, out);
         }
         // Exp(lambda) = Exp1 / lambda
         for l in [f(1.0), f(0.37), f(250.0), f(1e-3)] {
